@@ -173,3 +173,29 @@ def c15_cases(rng, tier):
                     for _ in range(rng.randrange(0, 24)))
         cases.append(f"contains {E} {hx(raw)}")
     return cases, oracles
+
+
+def c13_pinned_oracle(by_case):
+    """The implementation's own opcode table (read off the real ops through the `shorts` and
+    `opcode` families) must equal the pinned table."""
+    pinned = json.load(open(os.path.join(ROOT, "pinned", "opcodes.json")))
+    fails = []
+    want = " ".join(f'{r["short"]}={r["name"]}={r["opcode"]}={r["imm"]}' for r in pinned)
+    got = by_case.get("shorts")
+    if got is not None and got != want:
+        w, g = want.split(" "), got.split(" ")
+        diff = [f"{a} != pinned {b}" for a, b in zip(g, w) if a != b][:4] or [f"{len(g)} entries vs {len(w)} pinned"]
+        fails.append(("shorts", "FAIL opcode table differs from the pinned table: " + "; ".join(diff)))
+    by_oc = {r["opcode"]: r for r in pinned}
+    for b in range(256):
+        o = by_case.get(f"opcode {b}")
+        if o is None:
+            continue
+        if b in by_oc:
+            g, n = by_oc[b]["name"].split(".")
+            exp = f"ok {g}({n}) {b}"
+        else:
+            exp = f"err InvalidOpcode:{b}"
+        if o != exp:
+            fails.append((f"opcode {b}", f"FAIL byte {b}: implementation says `{o}`, pinned table says `{exp}`"))
+    return fails
